@@ -786,3 +786,19 @@ Theorem C01_region_extraction_column_sound :
       WTrace h (resolve_flat h) strict n e ds tr st -> WTrace ha (resolve_flat ha) strict n e' ds tr st.
 Proof. exact extract_col_sound. Qed.
 Print Assumptions C01_region_extraction_column_sound.
+
+(* an insertion in front of one successor with a REGION among the predecessors (the region block and,
+   recursively, its exiting block are re-targeted): judged on the resolved leaf graphs.  If the leaf graph of
+   the hierarchy the implementation produced is, lookup for lookup, the flat insertion into the leaf graph of
+   the hierarchy before the call - in front of the block the successor resolves to, for the blocks the
+   predecessors are left through - every flat walk is kept (Model/RlInsert.v: Flatten twice, the flat theorem
+   in between; no model of the edit on hierarchies is involved).  Column value 7. *)
+From V Require Import Model.RlInsert.
+Theorem C01_insertion_with_region_predecessor_column_sound :
+  forall h ha new e0 preds cls strict,
+    ins_rl_col_of h ha new e0 preds cls = 7%Z ->
+    forall n e e' ds tr st,
+      (exists b p, find h n = Some b /\ n_kind b = KOrig p) -> E Fn e e' ->
+      WTrace h (resolve_flat h) strict n e ds tr st -> WTrace ha (resolve_flat ha) strict n e' ds tr st.
+Proof. exact ins_rl_col_sound. Qed.
+Print Assumptions C01_insertion_with_region_predecessor_column_sound.
